@@ -236,8 +236,8 @@ def build_cases(ctx, scheds=()):
     # bytes of the frame of message cut_at and the Write fails.  Mostly block frames (the upload counter must credit exactly the
     # block bytes taken: k - 13), cut inside the header, on its last byte, inside the block, one byte before its end; also the
     # reject that answers a duplicate request and frames without payload.
-    # NOT YET PROVEN QUIET on the unchanged tree (round 3 ran out of time under load): off unless VERIF_C11_CUT=1
-    for j in range(ctx.pick(90, 2500) if os.environ.get("VERIF_C11_CUT") else 0):
+    # round 3: quiet on the unchanged tree for seeds 1,2,3 (idle machine) -> on by default; VERIF_C11_CUT=0 switches it off
+    for j in range(ctx.pick(90, 2500) if (os.environ.get("VERIF_C11_CUT", "1") != "0") else 0):
         pre = [g.random_msg(False) for _ in range(rng.randrange(3))]
         n = rng.choice([0, 1, 5, 100, 1000, 16383, 16384, 16384, 16384, rng.randrange(16385)])
         blk = piece(rng, rng.randrange(4), rng.choice([0, 16384, 32768]), plen=n)
@@ -601,7 +601,7 @@ def run(ctx):
         # LEVEL 2 (thorough) is a superset of LEVEL 1 (quick)
         ctx.tlc_mc("MC_Wire", ctx.pick("MC_Wire.cfg", "MC_Wire_big.cfg"), timeout=ctx.pick(1500, 3000))
         # FAULT: the connection breaks inside any frame after any number of its bytes (Wire!SendCut), every fragmentation
-        if os.environ.get("VERIF_C11_CUT"):
+        if (os.environ.get("VERIF_C11_CUT", "1") != "0"):
             ctx.tlc_mc("MC_Wire", ctx.pick("MC_Wire_cut.cfg", "MC_Wire_cut_big.cfg"), timeout=ctx.pick(1500, 3000))
     # several connections at once: every interleaving of Build/Flush keeps every handshake exact; the interleavings are printed
     scheds = []
